@@ -221,8 +221,9 @@ theorem transf_neutral (mode : Mode) (cs : CS2) (rnd : Rounding) (h0 : cs.h0 ≠
   intro i j hi0 hi1 hj0 hj1
   exact C09.warp_identity_2d 0 rnd mode cs h0 h1 a.arr.get i j hi0 hj0 hi1 hj1
 
-/-- the per-object warp cache is transparent: after ANY history of calls on the same object (cache empty at
-first), a call returns exactly what a fresh object returns. -/
+/-- (constant-cache induction: with FIXED parameters and systems the cache is `mkCache` by definition, so every step is `rfl`;
+the statement that matters - the cache follows parameter changes - is `C09.warp_cache_tracks_parameters`.) the per-object warp
+cache is transparent for array histories: a call returns exactly what a fresh object returns. -/
 theorem transf_cache_transparent (mode : Mode) (T : Affine2 Rat) (csS csD : CS2) (rnd : Rounding)
     (hs : List TArr) (a : TArr) :
     transfRun mode T csS csD rnd none hs a = transfCorr mode T csS csD rnd a := by
@@ -238,7 +239,8 @@ theorem transf_cache_transparent (mode : Mode) (T : Affine2 Rat) (csS csD : CS2)
     | cons x xs ih => intro st h; simp only [transfRun]; exact ih _ (Or.inr (step st x h).1)
   exact gen none (Or.inl rfl)
 
-/-- the shared workflow with a concrete array function `f` (no whole-series routine, no declared metadata update):
+/-- (definitional: the same unfolding of the specification-level model `Corr.callImage` as the `_partial` theorems; the
+operational statements are the `heap_*` theorems.) the shared workflow with a concrete array function `f` (no whole-series routine, no declared metadata update):
 a series is corrected slice by slice with that very `f`, copy mode leaves the input untouched, overwrite mode returns
 the same object with the same data; metadata unchanged. Instantiate `f` with `typeCorr t`, `transCorrInt …`,
 `rotCorr2 …`, `driftInactive`, `transfCorr …`. -/
@@ -256,7 +258,8 @@ theorem concrete_workflow {Meta : Type} (f : TArr → TArr) (o : Correction.Obj 
     by simp [Correction.Corr.callImage, plainCorr], ?_⟩
   cases hd : o.data <;> simp [Correction.Corr.callImage, Correction.Corr.onData, plainCorr, hd]
 
-/-- neutral concrete corrections through the workflow: every slice of the result agrees with the input slice. -/
+/-- (trivial: `List.getElem_map` plus the hypothesis.) neutral concrete corrections through the workflow: every slice of the
+result agrees with the input slice. -/
 theorem concrete_neutral_series (f : TArr → TArr) (hf : ∀ a, (f a).agree a) (sl : List TArr) :
     ∀ t (ht : t < sl.length), ((sl.map f)[t]'(by simpa using ht)).agree sl[t] := by
   intro t ht; simp only [List.getElem_map]; exact hf _
@@ -535,6 +538,49 @@ theorem curv_cache_transparent (interp : Interp) (crop : Arr2 Rat → Arr2 Rat) 
       exact ih _ (Or.inr ⟨x.n0, x.n1, (step st x h).1⟩)
   exact gen none (Or.inl rfl)
 
+/-- a stored cache (memory or file) is always the grid of the shape it is labelled with -/
+def GoodCache (interp : Interp) (crop : Arr2 Rat → Arr2 Rat) (cfg : CurvCfg) (c : Option CurvCache) : Prop :=
+  c = none ∨ ∃ m0 m1, c = some (m0, m1, curvGrid interp crop cfg m0 m1)
+
+/-- with the FILE cache (`use_cache`), too: whatever objects wrote the file before and whatever this or other objects were
+applied to (any shapes), a call returns what a fresh object without any cache returns. -/
+theorem curv_filecache_transparent (interp : Interp) (crop : Arr2 Rat → Arr2 Rat) (cfg : CurvCfg)
+    (hs : List (Bool × Arr2 Rat)) (fresh : Bool) (a : Arr2 Rat) :
+    curvRunFile interp crop cfg (none, none) hs fresh a = curvCorr interp crop cfg a := by
+  have step : ∀ (st : Option CurvCache × Option CurvCache) (f : Bool) (x : Arr2 Rat),
+      GoodCache interp crop cfg st.1 → GoodCache interp crop cfg st.2 →
+      GoodCache interp crop cfg (curvStepFile interp crop cfg st f x).1.1 ∧
+      GoodCache interp crop cfg (curvStepFile interp crop cfg st f x).1.2 ∧
+      (curvStepFile interp crop cfg st f x).2 = curvCorr interp crop cfg x := by
+    intro st f x h1 h2
+    have hm : GoodCache interp crop cfg (memAfterLoad st f) := by
+      unfold memAfterLoad
+      cases f
+      · simp only [Bool.false_eq_true, if_false]
+        rcases h1 with h | ⟨m0, m1, h⟩
+        · rw [h]; exact h2
+        · rw [h]; exact Or.inr ⟨m0, m1, rfl⟩
+      · simpa using h2
+    simp only [curvStepFile]
+    generalize memAfterLoad st f = mem at hm ⊢
+    rcases hm with rfl | ⟨m0, m1, rfl⟩
+    · exact ⟨Or.inr ⟨_, _, rfl⟩, Or.inr ⟨_, _, rfl⟩, rfl⟩
+    · by_cases hmm : m0 = x.n0 ∧ m1 = x.n1
+      · simp only [hmm, and_self, if_true]
+        exact ⟨by rw [← hmm.1, ← hmm.2]; exact Or.inr ⟨m0, m1, rfl⟩, h2, by simp [curvCorr, hmm.1, hmm.2]⟩
+      · simp only [hmm, if_false]
+        exact ⟨Or.inr ⟨_, _, rfl⟩, Or.inr ⟨_, _, rfl⟩, rfl⟩
+  have gen : ∀ (st : Option CurvCache × Option CurvCache), GoodCache interp crop cfg st.1 → GoodCache interp crop cfg st.2 →
+      curvRunFile interp crop cfg st hs fresh a = curvCorr interp crop cfg a := by
+    induction hs with
+    | nil => intro st h1 h2; exact (step st fresh a h1 h2).2.2
+    | cons p ps ih =>
+      intro st h1 h2
+      obtain ⟨f, x⟩ := p
+      simp only [curvRunFile]
+      exact ih _ (step st f x h1 h2).1 (step st f x h1 h2).2.1
+  exact gen (none, none) (Or.inl rfl) (Or.inl rfl)
+
 /-- DEFECT of the tree before the fix, as a theorem: re-using the first array's grid gives a 1 × 1 result for a 1 × 2 array
 after a 1 × 1 array. -/
 theorem curv_cache_stale_witness :
@@ -590,6 +636,38 @@ theorem interpNearest_contracts : InterpExact interpNearest ∧ InterpLocal inte
         have : (1 : Rat) ≤ (F.n1 : Rat) := by linarith
         exact_mod_cast this
       exact h.2.2 _ _ (clipInt_bounds _ _ hn0).1 (clipInt_bounds _ _ hn0).2 (clipInt_bounds _ _ hn1).1 (clipInt_bounds _ _ hn1).2
+    · rfl
+
+/-- the linear routine (`order = 1`, the default of CurvatureCorrection) satisfies both contracts as well: it is exact at
+in-range integer positions and reads only samples inside the array. -/
+theorem interpLinear_contracts : InterpExact interpLinear ∧ InterpLocal interpLinear := by
+  constructor
+  · intro F i j hi0 hi1 hj0 hj1
+    have a0 : (0 : Rat) ≤ (i : Rat) := by exact_mod_cast hi0
+    have a1 : (i : Rat) ≤ (F.n0 : Rat) - 1 := by
+      have : ((i + 1 : Int) : Rat) ≤ ((F.n0 : Int) : Rat) := by exact_mod_cast (by omega : i + 1 ≤ (F.n0 : Int))
+      push_cast at this; linarith
+    have b0 : (0 : Rat) ≤ (j : Rat) := by exact_mod_cast hj0
+    have b1 : (j : Rat) ≤ (F.n1 : Rat) - 1 := by
+      have : ((j + 1 : Int) : Rat) ≤ ((F.n1 : Int) : Rat) := by exact_mod_cast (by omega : j + 1 ≤ (F.n1 : Int))
+      push_cast at this; linarith
+    simp only [interpLinear, interpLinearShift, add_zero, ite_self, floor_int, sub_self]
+    rw [if_pos ⟨a0, a1, b0, b1⟩, clipInt_id i _ hi0 hi1, clipInt_id j _ hj0 hj1]
+    ring
+  · intro F G h r c
+    simp only [interpLinear, interpLinearShift, add_zero, ite_self, ← h.1, ← h.2.1]
+    split
+    · rename_i hc
+      have hn0 : 0 < F.n0 := by
+        have : (1 : Rat) ≤ (F.n0 : Rat) := by linarith [le_trans hc.1 hc.2.1]
+        exact_mod_cast this
+      have hn1 : 0 < F.n1 := by
+        have : (1 : Rat) ≤ (F.n1 : Rat) := by linarith [le_trans hc.2.2.1 hc.2.2.2]
+        exact_mod_cast this
+      have g : ∀ a b : Int, F.get (clipInt a 0 ((F.n0 : Int) - 1)) (clipInt b 0 ((F.n1 : Int) - 1))
+          = G.get (clipInt a 0 ((F.n0 : Int) - 1)) (clipInt b 0 ((F.n1 : Int) - 1)) := fun a b =>
+        h.2.2 _ _ (clipInt_bounds _ _ hn0).1 (clipInt_bounds _ _ hn0).2 (clipInt_bounds _ _ hn1).1 (clipInt_bounds _ _ hn1).2
+      simp only [g]
     · rfl
 
 /-- IlluminationCorrection reads only its argument (and its fixed scaling images). -/
